@@ -125,6 +125,81 @@ def r_claimdestroy(prog, R):
             r.viol("%s_node_claim frees node" % fam, cl.name, cl.loc(cl.ln), "claim does not release the node shell")
 
 
+def r_unlinkfirst(prog, R, rid="R-C19-UNLINKFIRST", fams=("ares_llist", "ares_slist")):
+    """The destructor of a list value may re-enter the container (a server's destructor re-sends its in-flight queries, and the re-send picks the
+    first entry of channel->servers): node_destroy must have taken the node out of the list before it runs the destructor."""
+    r = R.rule(rid, "a node is unlinked before its value's destructor runs: on every path to the destructor call in node_destroy the node was claimed (taken out of the list) first, "
+               "so a destructor that re-enters the container never finds the half-destroyed value", floor=len(fams), analysis="A-DOM must-pass-through (claim before the indirect destructor call)")
+    for fam in fams:
+        ds = prog.func(fam + "_node_destroy")
+        mf = MustFacts(ds)
+        sites = [(b, i, c) for b, i, c in ds.calls() if not c.get("callee") and slot_of(c.get("fnx"))[-1] == "destruct"]
+        if not sites:
+            r.broke("no destructor call in %s" % ds.name)
+            continue
+        for b, i, c in sites:
+            k = "%s_node_destroy: claim before destruct" % fam
+            if mf.passed_call(b, i, fam + "_node_claim"):
+                r.ok(k, ds.loc(c["ln"]))
+            else:
+                r.viol(k, ds.name, ds.loc(c["ln"]), "%s runs the value's destructor while the node is still linked: a destructor that walks or edits the list (destroying a server re-sends its queries and picks the "
+                       "first server of channel->servers) meets the value that is being destroyed" % ds.name)
+
+
+def r_movebound(prog, R):
+    """ares_array_move shifts the members [src, offset+cnt) to dest.  Evaluated exactly (the CFG of the function interpreted over a finite
+    domain of (alloc_cnt, offset, cnt, src, dest)): every move that stays inside the allocation is performed -- including the one that ends
+    exactly at the last allocated slot -- and, with offset 0, every move that would pass the allocation is refused."""
+    import evalx
+    r = R.rule("R-C19-MOVEBOUND", "ares_array_move performs every shift that stays within the allocation (the moved block may end exactly at the last allocated slot) and refuses "
+               "a right shift that would pass it", floor=2, analysis="exact evaluation of the function's CFG over a finite domain (evalx.run_cfg)")
+    f = prog.func("ares_array_move")
+    if not r.require(len(f.params) == 3, "ares_array_move no longer takes (arr, dest, src)"):
+        return
+    an, dn, sn = [p_["n"] for p_ in f.params]
+    locs = {v["n"] for b, i, el in f.elements() if el["k"] == "decl" for v in el["vars"] if "*" not in (v.get("ty") or "")}
+    bad_accept = bad_reject = None
+    n = 0
+    try:
+        for alloc in (4, 8):
+            for off in range(0, 3):
+                for cnt in range(0, alloc - off + 1):
+                    for src in range(off, off + cnt + 1):
+                        for dest in range(0, alloc):
+                            if src >= alloc or dest == src:
+                                continue
+                            nm = cnt - (src - off)
+                            env = {an: 1, dn: dest, sn: src, an + "->alloc_cnt": alloc, an + "->offset": off, an + "->cnt": cnt, an + "->member_size": 8}
+                            for v in locs:
+                                env.setdefault(v, 0)
+                            res = evalx.run_cfg(f, env)
+                            if res[0] != "ret":
+                                raise evalx.Unknown("path left open at block %s" % (res[1],))
+                            ok = name_of_const(res[1].get("e")) == "ARES_SUCCESS"
+                            n += 1
+                            if dest + nm <= alloc and not ok and bad_reject is None:
+                                bad_reject = (alloc, off, cnt, src, dest, nm, res[1])
+                            if dest > src and dest + nm > alloc and off == 0 and ok and bad_accept is None:
+                                bad_accept = (alloc, off, cnt, src, dest, nm, res[1])
+    except evalx.Unknown as e:
+        r.broke("ares_array_move not interpretable: %s" % e)
+        return
+    r.info["tuples_evaluated"] = n
+    k = "every shift inside the allocation is performed"
+    if bad_reject:
+        a, o, c, s_, d, nm, el = bad_reject
+        r.viol(k, f.name, f.loc(el), "with alloc_cnt=%d offset=%d cnt=%d the move of %d member(s) from index %d to index %d ends at slot %d <= %d, yet ares_array_move refuses it: ares_array_insert_at / insert_first fail "
+               "whenever the new member would exactly fill the allocation" % (a, o, c, nm, s_, d, d + nm, a))
+    else:
+        r.ok(k, f.loc(f.ln), "%d tuples" % n)
+    k = "a right shift past the allocation is refused"
+    if bad_accept:
+        a, o, c, s_, d, nm, el = bad_accept
+        r.viol(k, f.name, f.loc(el), "with alloc_cnt=%d offset=%d cnt=%d the move of %d member(s) from index %d to index %d would end at slot %d > %d and is performed: memmove writes past the allocation" % (a, o, c, nm, s_, d, d + nm, a))
+    else:
+        r.ok(k, f.loc(f.ln), "%d tuples" % n)
+
+
 def r_reclaim(prog, R):
     r = R.rule("R-C19-BUFTAG", "compaction never drops bytes behind a set tag and re-bases the tag exactly when a tag is set; rollback restores the tagged offset", floor=4, analysis="exact-guard (guard_delta)")
     f = prog.func("ares_buf_reclaim")
@@ -360,6 +435,8 @@ def run(prog, R, tier):
     R.assume("conformance of the containers to their abstract models under operation sequences is not decided here")
     r_sib(prog, R)
     r_claimdestroy(prog, R)
+    r_unlinkfirst(prog, R)
+    r_movebound(prog, R)
     r_reclaim(prog, R)
     r_links(prog, R)
     r_arrayoff(prog, R)
